@@ -3,7 +3,7 @@ import ast
 
 from ..affine import Env, Form, Lit, NonAffine
 from ..heap import Analysis
-from ..model import norm, walk_own
+from ..model import norm, parent, walk_own
 from ..paths import summarize
 from ..rules_own import purity_rule
 
@@ -261,6 +261,35 @@ def single_exit(prog, rep, fi):
     rep.check(isinstance(last, ast.Return), "RESULT", fi.short, "final return", "the function ends by returning the swept list", "the function does not end in a return of the swept list", fi.loc(last))
 
 
+def no_rejection(prog, rep, fi):
+    """valid input includes events that share an edge and zero-length events: a validation that raises on `<=` rejects them"""
+    from ..affine import Env, NonAffine, literal
+
+    rep.rule("ACCEPTS", "union_no_overlap does not refuse valid input: a `raise` guarded by a comparison between one event's start and another's end is strict (it fires only for events that really overlap / are out of order), never `<=` / `>=` (events that merely touch, or a zero-length event on a neighbour's edge, are valid)")
+    n = 0
+    for r in [x for x in ast.walk(fi.node) if isinstance(x, ast.Raise)]:
+        p = parent(r)
+        while p is not None and not isinstance(p, ast.If):
+            p = parent(p)
+        if p is None:
+            continue
+        pol = any(r is y for b in p.body for y in ast.walk(b))
+        tests = p.test.values if isinstance(p.test, ast.BoolOp) else [p.test]
+        for t in tests:
+            if not (isinstance(t, ast.Compare) and len(t.ops) == 1 and isinstance(t.ops[0], (ast.Lt, ast.LtE, ast.Gt, ast.GtE))):
+                continue
+            txt = norm(t)
+            if "timestamp" not in txt or "duration" not in txt:
+                continue
+            n += 1
+            try:
+                lit = literal(t, Env(fi, prog, inline_locals=True), pol)
+            except NonAffine:
+                continue
+            rep.check(lit.op == "<", "ACCEPTS", fi.short, f"raise under `{txt[:60]}`", "strict comparison", f"the input check `{txt}` also fires when the two instants are EQUAL (the raising side is {lit!r}): lists whose events share an edge, or that hold a zero-length event on a neighbour's edge, are sorted and non-overlapping, yet they are refused with an exception instead of being merged", fi.loc(r))
+    rep.extra["input_checks_examined"] = n
+
+
 def check(prog, rep):
     rep.level = "other"
     rep.explanation = (
@@ -276,6 +305,7 @@ def check(prog, rep):
     fi, an = purity_rule(prog, rep, "union_no_overlap", ["events1", "events2"])
     ctx = list_one_intact(prog, rep, an)
     single_exit(prog, rep, fi)
+    no_rejection(prog, rep, fi)
     split_rule(prog, rep)
     if ctx:
         cut_points(prog, rep, ctx)
@@ -291,6 +321,8 @@ def check(prog, rep):
 
 
 VARIANTS = [
+    ("B fail-fast input validation that also rejects events sharing an edge", F, "    events2 = deepcopy(events2)\n", "    events2 = deepcopy(events2)\n    for prev, cur in zip(events2, events2[1:]):\n        if cur.timestamp <= prev.timestamp + prev.duration:\n            raise ValueError(\"events2 must be sorted and must not overlap itself\")\n", "ACCEPTS"),
+    ("OK fail-fast input validation that rejects only real overlap", F, "    events2 = deepcopy(events2)\n", "    events2 = deepcopy(events2)\n    for prev, cur in zip(events2, events2[1:]):\n        if cur.timestamp < prev.timestamp + prev.duration:\n            raise ValueError(\"events2 must be sorted and must not overlap itself\")\n", "ok"),
     ("B timestamp setter keeps zero-offset zones (Europe/London in winter) unconverted", "aw_core/models.py", "        self[\"timestamp\"] = _timestamp_parse(timestamp).astimezone(timezone.utc)", "        ts = _timestamp_parse(timestamp)\n        if ts.utcoffset() != timedelta(0):\n            ts = ts.astimezone(timezone.utc)\n        self[\"timestamp\"] = ts", "NORMALISE"),
     ("B list two loses the events whose id occurs in list one", F, "    events2 = deepcopy(events2)\n", "    events2 = deepcopy(events2)\n    ids1 = {e.id for e in events1 if e.id is not None}\n    events2 = [e for e in events2 if e.id not in ids1]\n", "CUT"),
     ("B events1 not copied", F, "    events1 = deepcopy(events1)\n", "", "ok"),  # list one is never written: still pure
